@@ -20,7 +20,10 @@ RULE = ("seeded random shot lists (repetitions, idle qubits, single shot, all-eq
         "change lies between two queries; magnitudes: coefficients scaled by 2^-60..2^40 / 1e-12..1e9 (whole operator or "
         "term by term, scale siblings of one operator on one Measurements object), 255..131073 shots (run-length coded: "
         "near-unanimous, split by one, few outcomes), frequencies up to 2^52 that differ by one, widths 9..70 on every API, "
-        "numpy integer bits - all judged with tolerances proportional to |coefficient| resp. |c_i c_j|/denominator, never "
+        "numpy integer bits; wide registers (9..257) x nearly equal outcomes on every API: a base bitstring and siblings that "
+        "differ from it in exactly one position just below / at / above 8, 16, 32, 53, 63, 64, 128 or in the first / last "
+        "position, unequal multiplicities, terms / marked qubits on exactly those positions, a shot overwritten by its "
+        "sibling on one Measurements object - all judged with tolerances proportional to |coefficient| resp. |c_i c_j|/denominator, never "
         "absolute; distinct = distinct canonical JSON of the case")
 TRUSTED = [
     "numpy integer/float array arithmetic (sum, *, /, %, fancy indexing, reshape, 1-d broadcasting) computes the "
@@ -139,6 +142,16 @@ def corpus():
         {"kind": "dist", "shots": ["0" * 32 + "1", "0" * 32 + "1", "0" * 33]},
         {"kind": "freq", "marked": [69, 3], "freq": [["0" * 69 + "1", 3], ["0" * 70, 1]]},
         {"kind": "parity_vec", "rows": ["0" * 69 + "1", "0" * 70, "1" * 70], "marked": [69, 64, 0]},
+        # ---- outcomes that differ only beyond / only before a position boundary, unequal multiplicities
+        {"kind": "counts", "shots": ["0" * 66, "0" * 65 + "1", "0" * 66, "0" * 64 + "10", "0" * 66, "0" * 65 + "1"]},
+        {"kind": "dist", "shots": ["1" + "0" * 69, "0" * 70, "0" * 70, "0" * 69 + "1", "0" * 70, "0" * 69 + "1"]},
+        {"kind": "add_counts", "shots": [], "counts": [["1" * 129, 3], ["0" + "1" * 128, 2], ["1" * 128 + "0", 1]]},
+        {"kind": "ev", "shots": ["0" * 66, "0" * 65 + "1", "0" * 66, "0" * 64 + "10", "0" * 66], "bessel": False, "exact": False,
+         "terms": [_t(2, z(65)), _t(-1, z(64)), _t(Fraction(1, 2), z(64, 65)), _t(3, z(0, 65))]},
+        {"kind": "parities", "shots": ["0" * 66, "0" * 65 + "1", "0" * 66, "0" * 64 + "10", "0" * 66],
+         "terms": [_t(2, z(65)), _t(-1, z(64)), _t(1, z(64, 65))]},
+        {"kind": "freq", "marked": [64], "freq": [["0" * 65, 5], ["0" * 64 + "1", 2], ["1" + "0" * 64, 1]]},
+        {"kind": "parity_vec", "rows": ["0" * 130, "0" * 128 + "10", "0" * 129 + "1", "1" + "0" * 129], "marked": [128, 129]},
         # ---- one Measurements object asked for the same operator at three magnitudes
         {"kind": "history", "init": [["00", "01", "11", "01", "10"]],
          "operators": [[_t(2, z(0)), _t(-1, z(0, 1))], [_t(Fraction(2, 2 ** 40), z(0)), _t(Fraction(-1, 2 ** 40), z(0, 1))],
@@ -346,6 +359,98 @@ def _magnitudes(rng, big):
     return cases
 
 
+BOUNDS = [8, 16, 32, 53, 63, 64, 128]
+SIB_WIDTHS = [9, 16, 17, 24, 33, 40, 54, 55, 64, 65, 66, 70, 100, 128, 129, 130, 200, 257]
+
+
+def _flip(s, q):
+    return s[:q] + ("1" if s[q] == "0" else "0") + s[q + 1:]
+
+
+def _sibling_set(rng, w):
+    """distinct outcomes that are equal almost everywhere: one or two base strings plus siblings that differ from a base
+    in exactly ONE position, chosen just below / at / above a boundary (8, 16, 32, 53, 63, 64, 128), in the first or in
+    the last position (sometimes in two positions on the same side of a boundary).
+    Returns (distinct outcomes, base first; positions in which some sibling differs from its base)."""
+    cand = sorted({q for b in BOUNDS for q in (b - 1, b, b + 1) if 0 <= q < w} | {0, w - 1})
+    high = [q for q in cand if q >= max(b for b in [0] + BOUNDS if b < w)]  # beyond the last boundary inside the register
+    pos = rng.sample(cand, min(len(cand), rng.randrange(2, 6)))
+    if rng.random() < 0.7:
+        pos = list(dict.fromkeys(pos + [rng.choice(high), rng.choice([0, w - 1])]))
+    style = rng.random()
+    base = ("0" * w if style < 0.25 else "1" * w if style < 0.4 else format(rng.getrandbits(w), f"0{w}b"))
+    outs = [base] + [_flip(base, q) for q in pos]
+    if rng.random() < 0.4 and len(pos) >= 2:  # differs in two positions (both far from the rest of the differences)
+        a, b = rng.sample(pos, 2)
+        outs.append(_flip(_flip(base, a), b))
+    if rng.random() < 0.3:  # a second, unrelated base with one sibling
+        base2 = format(rng.getrandbits(w), f"0{w}b")
+        outs += [base2, _flip(base2, rng.choice(pos))]
+    return list(dict.fromkeys(outs)), pos
+
+
+def _sibling_shots(rng, outs):
+    mult = [rng.choice([1, 2, 3, 5, 8]) for _ in outs]
+    if len(set(mult)) == 1:
+        mult[0] += 1
+    shots = [o for o, k in zip(outs, mult) for _ in range(k)]
+    rng.shuffle(shots)
+    return shots, [[o, k] for o, k in zip(outs, mult)]
+
+
+def _sibling_terms(rng, w, pos):
+    """Z-terms that see exactly the positions in which the outcomes differ (alone, in pairs, together with qubit 0 / w-1)"""
+    def zt(qs):
+        return {"coeff": rat(_dyadic(rng) or Fraction(1)), "ops": [[q, "Z"] for q in dict.fromkeys(qs)]}
+    terms = [zt([q]) for q in rng.sample(pos, min(len(pos), 3))]
+    if len(pos) >= 2:
+        terms.append(zt(rng.sample(pos, 2)))
+    terms.append(zt([rng.choice(pos), rng.choice([0, w - 1, rng.randrange(w)])]))
+    if rng.random() < 0.5:
+        terms.append(zt(pos))
+    if rng.random() < 0.3:
+        terms.append({"coeff": rat(_dyadic(rng)), "ops": []})
+    rng.shuffle(terms)
+    return terms
+
+
+def _boundary_siblings(rng, big):
+    """wide registers x nearly equal outcomes, on every API: the outcomes of a case differ ONLY beyond (or only before)
+    a position boundary, with unequal multiplicities - whatever abbreviates a bitstring (a machine integer, a float,
+    packed bytes, a truncated string) merges them"""
+    cases = []
+    widths = list(SIB_WIDTHS) * (3 if big else 1)
+    if not big:
+        widths += [65, 70, 129]
+    for w in widths:
+        outs, pos = _sibling_set(rng, w)
+        shots, runs = _sibling_shots(rng, outs)
+        terms = _sibling_terms(rng, w, pos)
+        npb = rng.random() < 0.15
+        cases.append({"kind": "counts", "shots": shots})
+        cases.append({"kind": "dist", "shots": shots})
+        runs2 = list(runs)
+        rng.shuffle(runs2)
+        cases.append({"kind": "add_counts", "shots": shots[: rng.randrange(0, 3)], "counts": runs2})
+        cases.append({"kind": "ev", "shots": shots, "terms": terms, "bessel": rng.random() < 0.4, "exact": False, "np_bits": npb})
+        cases.append({"kind": "parities", "shots": shots, "terms": terms})
+        marked = list(dict.fromkeys(rng.sample(pos, rng.randrange(1, len(pos) + 1)) + ([rng.randrange(w)] if rng.random() < 0.3 else [])))
+        cases.append({"kind": "freq", "marked": marked, "freq": [[o, k * rng.choice([1, 1, 7])] for o, k in runs2], "as_set": rng.random() < 0.5})
+        rows = list(outs)
+        rng.shuffle(rows)
+        cases.append({"kind": "parity_vec", "rows": rows, "marked": rng.sample(pos, rng.randrange(1, len(pos) + 1))})
+        # one Measurements object: a shot is overwritten by its sibling (one position beyond / before a boundary), everything again
+        q = rng.choice(pos)
+        k = rng.randrange(len(shots))
+        steps = [{"do": "counts"}, {"do": "ev", "op": 0, "bessel": False},
+                 {"do": "setitem", "index": k, "shot": _flip(shots[k], q)},
+                 {"do": "counts"}, {"do": "dist"}, {"do": "ev", "op": 0, "bessel": rng.random() < 0.3}, {"do": "parities", "op": 0},
+                 {"do": "add_counts", "counts": [[_flip(outs[0], rng.choice(pos)), 2], [outs[0], 1]]},
+                 {"do": "counts"}, {"do": "dist"}, {"do": "save"}]
+        cases.append({"kind": "history", "init": [list(shots)], "operators": [terms], "steps": steps})
+    return cases
+
+
 def generate(rng, tier):
     big = tier == "thorough"
     maxw, maxn, maxt = (8, 200, 7) if big else (6, 60, 5)
@@ -448,6 +553,8 @@ def generate(rng, tier):
     # ---- the same statistics at other magnitudes (a fresh generator: the streams above stay as they were)
     import random as _random
     cases += _magnitudes(_random.Random(rng.getrandbits(64)), big)
+    # ---- wide registers x nearly equal outcomes (differences only beyond / only before a position boundary)
+    cases += _boundary_siblings(_random.Random(rng.getrandbits(64)), big)
     return cases
 
 
